@@ -607,6 +607,221 @@ fn access_control(case: &Value) -> Value {
     json!({"outcome":"ok","admitted":admitted})
 }
 
+
+fn byte_vec(v: &Value) -> Vec<u8> {
+    v.as_array().map(|a| a.iter().map(|x| x.as_u64().unwrap() as u8).collect()).unwrap_or_default()
+}
+
+/// C16: build real storage (sqlite table rows, a vault file, or an event log file) from the witness, run the
+/// real integrity stream and report per row whether it was flagged and whether it really is intact (real SHA-256).
+async fn integrity_case(case: &Value) -> Value {
+    use futures::StreamExt;
+    use sos_backend::BackendTarget;
+    let kind = case["kind"].as_str().unwrap();
+    let rows = case["rows"].as_array().unwrap();
+    let dir = tmp_path("integrity");
+    std::fs::create_dir_all(&dir).unwrap();
+    let account_id = account_of(1);
+    let folder_id = uuid::Uuid::from_bytes([9u8; 16]);
+    let paths = sos_core::Paths::new_client(&dir).with_account_id(&account_id);
+    let mut reported: Vec<bool> = Vec::new();
+    let mut errors: Vec<String> = Vec::new();
+    match kind {
+        "vault-db" => {
+            let client = sos_database::open_memory().await.unwrap();
+            let fid = folder_id.to_string();
+            let aid = account_id.to_string();
+            let ins: Vec<(String, Vec<u8>, Vec<u8>, Vec<u8>)> = rows
+                .iter()
+                .enumerate()
+                .map(|(i, r)| {
+                    (
+                        format!("00000000-0000-0000-0000-{:012}", i),
+                        byte_vec(&r["commit"]),
+                        byte_vec(&r["meta"]),
+                        byte_vec(&r["secret"]),
+                    )
+                })
+                .collect();
+            client
+                .conn(move |conn| {
+                    conn.execute(
+                        "INSERT INTO accounts (account_id, created_at, modified_at, identifier, name) VALUES (1, '2024-01-01T00:00:00Z', '2024-01-01T00:00:00Z', ?1, 'a')",
+                        [&aid],
+                    )?;
+                    conn.execute(
+                        "INSERT INTO folders (folder_id, account_id, created_at, modified_at, identifier, name, version, cipher, kdf, flags) VALUES (1, 1, '2024-01-01T00:00:00Z', '2024-01-01T00:00:00Z', ?1, 'f', 1, 'x_chacha20_poly1305', 'argon_2_id', x'0000000000000000')",
+                        [&fid],
+                    )?;
+                    for (ident, commit, meta, secret) in ins {
+                        conn.execute(
+                            "INSERT INTO folder_secrets (folder_id, created_at, modified_at, identifier, commit_hash, meta, secret) VALUES (1, '2024-01-01T00:00:00Z', '2024-01-01T00:00:00Z', ?1, ?2, ?3, ?4)",
+                            sos_database::async_sqlite::rusqlite::params![ident, commit, meta, secret],
+                        )?;
+                    }
+                    Ok(())
+                })
+                .await
+                .unwrap();
+            let target = BackendTarget::Database(paths.clone(), client);
+            let mut st = sos_integrity::vault_integrity(&target, &account_id, &folder_id);
+            while let Some(item) = st.next().await {
+                if let Err(e) = &item {
+                    errors.push(e.to_string());
+                }
+                reported.push(item.is_err());
+            }
+        }
+        "vault-fs" => {
+            let path = paths.vault_path(&folder_id);
+            std::fs::create_dir_all(path.parent().unwrap()).unwrap();
+            let mut bytes: Vec<u8> = sos_core::constants::VAULT_IDENTITY.to_vec();
+            bytes.extend_from_slice(&0u32.to_le_bytes());
+            for r in rows {
+                let id = byte_vec(&r["id"]);
+                let commit = byte_vec(&r["commit"]);
+                let content = byte_vec(&r["content"]);
+                let len = (16 + 32 + 4 + content.len()) as u32;
+                bytes.extend_from_slice(&len.to_le_bytes());
+                bytes.extend_from_slice(&id);
+                bytes.extend_from_slice(&commit);
+                bytes.extend_from_slice(&(content.len() as u32).to_le_bytes());
+                bytes.extend_from_slice(&content);
+                bytes.extend_from_slice(&len.to_le_bytes());
+            }
+            std::fs::write(&path, &bytes).unwrap();
+            let target = BackendTarget::FileSystem(paths.clone());
+            let mut st = sos_integrity::vault_integrity(&target, &account_id, &folder_id);
+            while let Some(item) = st.next().await {
+                if let Err(e) = &item {
+                    errors.push(e.to_string());
+                }
+                reported.push(item.is_err());
+            }
+        }
+        _ => {
+            use sos_core::events::EventLog;
+            let path = paths.event_log_path(&folder_id);
+            std::fs::create_dir_all(path.parent().unwrap()).unwrap();
+            let target = BackendTarget::FileSystem(paths.clone());
+            {
+                let mut log = sos_backend::FolderEventLog::new_folder(target.clone(), &account_id, &folder_id).await.unwrap();
+                let recs: Vec<EventRecord> = rows
+                    .iter()
+                    .enumerate()
+                    .map(|(i, r)| {
+                        let t = time::OffsetDateTime::from_unix_timestamp(1700000000 + i as i64).unwrap();
+                        let mut c = [0u8; 32];
+                        c.copy_from_slice(&byte_vec(&r["commit"]));
+                        EventRecord::new(t.into(), CommitHash([0u8; 32]), CommitHash(c), byte_vec(&r["content"]))
+                    })
+                    .collect();
+                log.apply_records(recs).await.unwrap();
+            }
+            let mut st = sos_integrity::event_integrity(&target, &account_id, &folder_id);
+            while let Some(item) = st.next().await {
+                if let Err(e) = &item {
+                    errors.push(e.to_string());
+                }
+                reported.push(item.is_err());
+            }
+        }
+    }
+    let _ = std::fs::remove_dir_all(&dir);
+    let out: Vec<Value> = rows
+        .iter()
+        .zip(reported.iter())
+        .map(|(r, rep)| {
+            let content = byte_vec(&r["content"]);
+            let real = sos_core::commit::CommitTree::hash(&content);
+            json!({"reported_failure": rep, "intact": real.to_vec() == byte_vec(&r["commit"])})
+        })
+        .collect();
+    json!({"outcome": "ok", "rows": out, "items": reported.len(), "errors": errors})
+}
+
+
+/// C11 part C: a real file-system ServerStorage whose device log holds `log`, then merge_device /
+/// force_merge_device with `patch`; reports the keys the server would verify against and the keys
+/// trusted by replaying the device log.
+async fn server_devices_case(case: &Value) -> Value {
+    use sos_backend::BackendTarget;
+    use sos_core::device::{DevicePublicKey, TrustedDevice};
+    use sos_core::events::patch::{Diff, Patch};
+    use sos_core::events::EventLog;
+    use sos_server_storage::{ServerAccountStorage, ServerStorage};
+    use sos_sync::{CreateSet, ForceMerge, Merge, MergeOutcome, StorageEventLogs};
+
+    fn key_of(b: u64) -> DevicePublicKey {
+        let mut k = [0x22u8; 32];
+        k[0] = b as u8;
+        k.into()
+    }
+    async fn records_of(v: &Value) -> Vec<EventRecord> {
+        let mut out = Vec::new();
+        for e in v.as_array().unwrap() {
+            let key = key_of(e[1].as_u64().unwrap());
+            let ev = if e[0].as_str().unwrap() == "trust" {
+                DeviceEvent::Trust(TrustedDevice::new(key, None, None))
+            } else {
+                DeviceEvent::Revoke(key)
+            };
+            out.push(EventRecord::encode_event(&ev).await.unwrap());
+        }
+        out
+    }
+    let dir = tmp_path("server-devices");
+    std::fs::create_dir_all(&dir).unwrap();
+    sos_core::Paths::scaffold(&dir).await.unwrap();
+    let account_id = account_of(7);
+    let mut storage = ServerStorage::new(BackendTarget::FileSystem(sos_core::Paths::new_server(&dir)), &account_id)
+        .await
+        .unwrap();
+    storage.paths().ensure().await.unwrap();
+    let log_records = records_of(&case["log"]).await;
+    let patch_records = records_of(&case["patch"]).await;
+    let vault = Vault::default();
+    let folder_record = EventRecord::encode_event(&WriteEvent::CreateVault(encode(&vault).await.unwrap())).await.unwrap();
+    let mut account_data = CreateSet::default();
+    account_data.device = Patch::new(log_records.clone());
+    account_data.folders.insert(*vault.id(), Patch::new(vec![folder_record]));
+    if let Err(e) = storage.import_account(&account_data).await {
+        let _ = std::fs::remove_dir_all(&dir);
+        return json!({"outcome": "setup_failed", "error": e.to_string()});
+    }
+    let mut outcome = MergeOutcome::default();
+    let call = case["call"].as_str().unwrap();
+    let result = if call == "merge" {
+        let (checkpoint, last) = {
+            let log = storage.device_log().await.unwrap();
+            let log = log.read().await;
+            (log.tree().head().unwrap_or_default(), log.tree().last_commit())
+        };
+        let diff = Diff::new(Patch::new(patch_records), checkpoint, last);
+        storage.merge_device(diff, &mut outcome).await.map(|c| format!("{:?}", c).chars().take(40).collect::<String>())
+    } else {
+        let mut tree = sos_core::commit::CommitTree::new();
+        for r in &patch_records {
+            tree.insert(r.commit().0);
+        }
+        tree.commit();
+        let diff = Diff::new(Patch::new(patch_records), tree.head().unwrap(), None);
+        storage.force_merge_device(diff, &mut outcome).await.map(|_| "ok".to_string())
+    };
+    let mut listed: Vec<String> = storage.list_device_keys().iter().map(|k| k.to_string()).collect();
+    listed.sort();
+    let mut replay: Vec<String> = {
+        let log = storage.device_log().await.unwrap();
+        let log = log.read().await;
+        sos_reducers::DeviceReducer::new(&*log).reduce().await.unwrap().iter().map(|d| d.public_key().to_string()).collect()
+    };
+    replay.sort();
+    let _ = storage.delete_account().await;
+    let _ = std::fs::remove_dir_all(&dir);
+    json!({"outcome": "ok", "result": result.map_err(|e| e.to_string()), "listed": listed, "replay": replay,
+           "agree": listed == replay})
+}
+
 static TMP_COUNTER: std::sync::atomic::AtomicUsize = std::sync::atomic::AtomicUsize::new(0);
 
 fn tmp_path(tag: &str) -> std::path::PathBuf {
@@ -671,6 +886,8 @@ pub async fn run(case: &Value) -> Value {
     let op = case.get("op").and_then(|v| v.as_str()).unwrap_or("");
     match op {
         "compact" => compact_case(case).await,
+        "integrity" => integrity_case(case).await,
+        "server_devices" => server_devices_case(case).await,
         "access_control" => access_control(case),
         "fslog_script" => fslog_script(case).await,
         "fslog_open" => fslog_open(case).await,
